@@ -10,6 +10,9 @@ use serde_json::{json, Value};
 pub enum Op {
     Update { file: String, content: String, variant: String },
     Rebuild,
+    /// a rebuild with other settings than the usual ones (1 = no custom formats registered, 2 = number formats only):
+    /// the output is a function of the files *and the settings* of that call
+    RebuildWith { settings: usize },
 }
 
 #[derive(Debug, Clone, Serialize, Deserialize)]
@@ -19,14 +22,19 @@ pub struct C14Case {
 }
 
 #[cfg(feature = "wasmhook")]
-fn settings_json() -> String {
+fn settings_json_variant(k: usize) -> String {
     let (sf, nf) = crate::c01::formats_json();
-    json!({"string_formats": sf, "number_formats": nf}).to_string()
+    match k {
+        1 => json!({"string_formats": [], "number_formats": []}).to_string(),
+        2 => json!({"string_formats": [], "number_formats": nf}).to_string(),
+        _ => json!({"string_formats": sf, "number_formats": nf}).to_string(),
+    }
 }
 
 #[cfg(feature = "wasmhook")]
-fn fresh_result(files: &std::collections::BTreeMap<String, String>) -> (Option<String>, String) {
+fn fresh_result(files: &std::collections::BTreeMap<String, String>, settings: usize) -> (Option<String>, String) {
     let files = files.clone();
+    let settings_json = move || settings_json_variant(settings);
     std::thread::Builder::new()
         .stack_size(16 * 1024 * 1024)
         .spawn(move || {
@@ -76,11 +84,13 @@ pub fn handle_watch(req: &Value) -> Value {
                     beff_wasm::verif_update_file_content(file, content);
                 }
             }
-            Op::Rebuild => {
+            Op::Rebuild | Op::RebuildWith { .. } => {
+                let k = if let Op::RebuildWith { settings } = op { *settings } else { 0 };
+                let settings_json = || settings_json_variant(k);
                 beff_wasm::verif_host::HOST.with(|h| h.borrow_mut().emitted.clear());
                 let code = beff_wasm::verif_bundle_to_string("entry.ts", &settings_json());
                 let diag = beff_wasm::verif_bundle_to_diagnostics("entry.ts", &settings_json());
-                let (fcode, fdiag) = fresh_result(&files);
+                let (fcode, fdiag) = fresh_result(&files, k);
                 rebuilds.push(json!({"step": step, "session_code": code, "session_diag": diag, "fresh_code": fcode, "fresh_diag": fdiag}));
             }
         }
@@ -98,8 +108,10 @@ fn variants(s: &mut Src, file: &str, idx: usize) -> (String, String) {
     let name = format!("T{}", idx);
     let other = if idx == 1 { "./m2" } else { "./m1" };
     let other_name = if idx == 1 { "T2" } else { "T1" };
-    let v = s.below(17);
+    let v = s.below(19);
     let (label, text) = match v {
+        17 => ("uses_string_format", format!("export type {} = {{ p: StringFormat<\"lower\">; n: number }};\n", name)),
+        18 => ("uses_number_format", format!("export type {} = {{ q: NumberFormat<\"int\"> }};\n", name)),
         15 => ("jsdoc1_reworded", format!("/** The same payload, described differently ({}). */\nexport type {} = {{\n  /** still the a field */\n  a: string;\n}};\n", file, name)),
         16 => ("jsdoc1_undocumented", format!("export type {} = {{\n  a: string;\n}};\n", name)),
         13 => ("provides_other_type", format!("export type {} = {{ provided_by: \"{}\" }};\n", other_name, file)),
@@ -191,7 +203,11 @@ impl Check for C14 {
         let mut history = vec![];
         for _ in 0..n {
             if s.chance(2, 5) {
-                history.push(Op::Rebuild);
+                if s.chance(1, 5) {
+                    history.push(Op::RebuildWith { settings: s.range(1, 2) });
+                } else {
+                    history.push(Op::Rebuild);
+                }
             } else {
                 let f = s.below(nmods + 2);
                 if f == nmods + 1 {
@@ -235,8 +251,11 @@ impl Check for C14 {
                         repaired = true;
                     }
                 }
-                Op::Rebuild => {
+                Op::Rebuild | Op::RebuildWith { .. } => {
                     out.label("has_rebuild");
+                    if matches!(op, Op::RebuildWith { .. }) {
+                        out.label("rebuild_with_other_settings");
+                    }
                     if saw_bad {
                         rebuilt_after_bad = true;
                     }
@@ -299,7 +318,7 @@ impl Check for C14 {
                         continue;
                     }
                     // parsed before the creation: a rebuild happened between the installation and the creation
-                    let parsed_before = parsed.history.iter().enumerate().any(|(p, op)| matches!(op, Op::Rebuild) && p + 1 > *installed && p < *c) || (*installed > 0 && parsed.history.iter().take(*installed).any(|op| matches!(op, Op::Rebuild)));
+                    let parsed_before = parsed.history.iter().enumerate().any(|(p, op)| matches!(op, Op::Rebuild | Op::RebuildWith { .. }) && p + 1 > *installed && p < *c) || (*installed > 0 && parsed.history.iter().take(*installed).any(|op| matches!(op, Op::Rebuild | Op::RebuildWith { .. })));
                     if parsed_before {
                         return true;
                     }
@@ -327,7 +346,7 @@ impl Check for C14 {
         }
         if nontrivial {
             out.nontrivial = Some(fp(&case.to_string()));
-            out.sample = Some(json!({"initial_files": parsed.initial.iter().map(|(n, _)| n.clone()).collect::<Vec<_>>(), "history": parsed.history.iter().map(|op| match op { Op::Rebuild => "Rebuild".to_string(), Op::Update { file, variant, .. } => format!("Update({}, {})", file, variant) }).collect::<Vec<_>>(), "rebuilds_compared": rebuilds.len()}));
+            out.sample = Some(json!({"initial_files": parsed.initial.iter().map(|(n, _)| n.clone()).collect::<Vec<_>>(), "history": parsed.history.iter().map(|op| match op { Op::Rebuild => "Rebuild".to_string(), Op::RebuildWith { settings } => format!("RebuildWith(settings {})", settings), Op::Update { file, variant, .. } => format!("Update({}, {})", file, variant) }).collect::<Vec<_>>(), "rebuilds_compared": rebuilds.len()}));
         }
         out
     }
